@@ -108,7 +108,8 @@ def case_linear(**p):
           rel.append(Y[1, u, j] == X[0, u, j] + (1 if j == k else 0))
       bad = [sym.s_cmp('lt', sym.s_sub(o[1, u], o[0, u]), sym.s_sub(o2[1, u], o2[0, u])) for u in range(units)]
       case.solve('dominant-step-at-least-weak-step[%d,%d]' % (d, k), core.any_of(bad), assumptions=feas + rel,
-                 witness=dict(wit, y=y), timeout=tmo, sig=dict(query='mdom'), replay=None)
+                 witness=dict(wit, y=y), timeout=tmo, sig=dict(query='mdom'),
+                 inline_replay=lambda m, y=y: _dom_replay(m, tr, x, y, vv, strict=False))
   for (d, k) in p.get('rdom', []):
     # sweeping the dominant input over its full range changes the output at least as much as sweeping the weak one
     y = sym.symbolic('y', tuple(shp))
@@ -128,7 +129,8 @@ def case_linear(**p):
           rel.append(Y[1, u, j] == Y[0, u, j])
     bad = [sym.s_cmp('lt', sym.s_abs(sym.s_sub(o[1, u], o[0, u])), sym.s_abs(sym.s_sub(o2[1, u], o2[0, u]))) for u in range(units)]
     case.solve('dominant-range-at-least-weak-range[%d,%d]' % (d, k), core.any_of(bad), assumptions=feas + rel,
-               witness=dict(wit, y=y), timeout=tmo, sig=dict(query='rdom'), replay=None)
+               witness=dict(wit, y=y), timeout=tmo, sig=dict(query='rdom'),
+               inline_replay=lambda m, y=y: _dom_replay(m, tr, x, y, vv, strict=False, absolute=True))
   if p.get('norm') == 1 and all(m == 1 for m in p['mono']) and not p.get('bias', True):
     # weighted average: weights >= 0 summing to 1 -> output within [min_i clip(x_i), max_i clip(x_i)]
     ns = [sym.EQ(t, 1) for t in c06.norm_terms(K, 1)]
@@ -142,6 +144,17 @@ def case_linear(**p):
     case.solve('normalised-increasing-layer-is-weighted-average', core.any_of(bad), assumptions=feas + ns, witness=wit,
                timeout=tmo, sig=dict(query='average'), replay=replay)
   return case
+
+
+def _dom_replay(m, tr, x, y, vv, strict=False, absolute=False):
+  vvn = {k: core.model_np(m, v) for k, v in vv.items()}
+  o1 = np.asarray(tr.tf_run(core.model_np(m, x), var_values=vvn)[0]).reshape(2, -1)
+  o2 = np.asarray(tr.tf_run(core.model_np(m, y), var_values=vvn)[0]).reshape(2, -1)
+  d1, d2 = o1[1] - o1[0], o2[1] - o2[0]
+  if absolute:
+    d1, d2 = np.abs(d1), np.abs(d2)
+  tol = 1e-4 * max(1.0, float(np.max(np.abs(o1))))
+  return dict(reproduced=bool(np.any(d1 < d2 - tol)), detail=dict(dominant_effect=d1.tolist(), weak_effect=d2.tolist()))
 
 
 def replay(r):
